@@ -534,12 +534,8 @@ func EVAL(ctx context.Context, ast MalType, env EnvType) (res MalType, e error) 
 					if err != nil {
 						return nil, err
 					}
-					ast, err = do(ctx, catchDo, 0, 0, new_env)
-					if err != nil {
-						return nil, err
-					}
-					env = new_env
-					continue
+					// the handler's result is a value: return it, do not evaluate it again
+					return do(ctx, catchDo, 0, 0, new_env)
 				}
 				return nil, e
 			}
